@@ -83,6 +83,8 @@ def run_calls(cfg, ids=None, role="single"):
                        parameters=[f"x_{i}" for i in range(c["dims"])], flow=flow, xp=xp, dtype=c["dtype"])
             kw = dict(n_samples=c["N"], sampler=c["sampler"],
                       preconditioning=None if c["precond"] == "default" else "none")
+            if c.get("out_ns"):
+                kw["xp"] = get_xp(c["out_ns"])        # the output-namespace option of the sampling call
             if c["sampler"] in ("minipcn", "emcee"):
                 kw["rng"] = urng
             if c["sampler"] == "minipcn":
@@ -174,7 +176,7 @@ def project_calls_group(gid, runs):
                 size_ok = len(res.x) == exp_n
             evs.append({"t": "result", "nlike": int(S.n_likelihood_evaluations),
                         "coh": [bool(x) for x in cc if x is not None], "size_ok": bool(size_ok),
-                        "width_ok": bool(width_of(res.x) == want_w and ns_of(res.x) == c["ns"]),
+                        "width_ok": bool(width_of(res.x) == want_w and ns_of(res.x) == (c.get("out_ns") or c["ns"])),
                         "ids": rid})
         out_runs.append({"role": r["role"], "status": r["status"], "exc": r["exc"][:200], "ev": evs,
                          "resumed": False, "orng_created": int(r["orng_created"]),
